@@ -592,7 +592,57 @@ func c11AllSizes() []c11Sz {
 
 type c11Pos struct{ x, y int }
 
+// C11_REPLAY="ref compact 1 t:4d58 scale=2 rot=90 quiet=2 global=false" re-runs one oracle input of
+// the read suite on the real code and prints what the detector saw.
+func c11Replay(c *Ctx, in string) {
+	f := strings.Fields(in)
+	if len(f) < 8 || f[0] != "ref" {
+		fmt.Println("cannot parse replay input")
+		return
+	}
+	compact := f[1] == "compact"
+	layers, _ := strconv.Atoi(f[2])
+	kv := map[string]string{}
+	for _, x := range f[4:] {
+		p := strings.SplitN(x, "=", 2)
+		if len(p) == 2 {
+			kv[p[0]] = p[1]
+		}
+	}
+	sc, _ := strconv.Atoi(kv["scale"])
+	rot, _ := strconv.Atoi(kv["rot"])
+	q, _ := strconv.Atoi(kv["quiet"])
+	sym, e := c11Ref(c, compact, layers, f[3])
+	if sym == nil {
+		fmt.Println("reference encoder:", e)
+		return
+	}
+	g := c11Grid(sym.rows)
+	out, _, _ := c11GoDecode(g, compact, sym.dw, layers)
+	fmt.Println("decoder on matrix:", c11Short(out))
+	img := c11Render(c11Rotate(g, rot/90), sc, q)
+	ro, _, _ := c11GoRead(img, kv["global"] == "true")
+	fmt.Println("reader on image  :", c11Short(ro))
+	dd, bits := c11GoDetect(img)
+	fmt.Println("detector         :", dd, " want layers", layers, "dw", sym.dw)
+	if bits != nil {
+		for y := range bits {
+			fmt.Println(strings.NewReplacer("0", ".", "1", "#").Replace(bits[y]), " ", strings.NewReplacer("0", ".", "1", "#").Replace(sym.rows[y]))
+		}
+	}
+	if kv["dump"] == "1" {
+		rg := c11Rotate(g, rot/90)
+		for y := range rg {
+			fmt.Println(strings.NewReplacer("0", ".", "1", "#").Replace(bitsStr(rg[y])))
+		}
+	}
+}
+
 func runC11(c *Ctx) {
+	if in := os.Getenv("C11_REPLAY"); in != "" {
+		c11Replay(c, in)
+		return
+	}
 	c.res.Rule = "reference symbols from the Lean ISO 24778 encoder: all 36 sizes x texts of 7 styles (upper, sentences with two-byte punct codes, digits, binary incl. runs across the 31/32-byte boundary, mixed/lower, interleaved) filling ~2%/45%/~100% of the size, random valid latch/shift scripts incl. FLG(n); " +
 		"each decoded (a) by decoder.Decode on the matrix, (b) by AztecReader.Decode on a rendered image (scale, 4 rotations, quiet zone 2..4, hybrid/global binarizer), (c) with <= floor(ec/2) damaged codewords; " +
 		"correspondence: Decode on reference/damaged/random matrices, HighLevelDecode on random/mutated/structured bit vectors (empty, 1 bit, every FLG(n), every ECI digit count), read order vs reference layout for all 36 sizes; non-trivial = distinct op line / distinct oracle input"
